@@ -30,3 +30,4 @@ LEVEL_TEXT = ('Bounded model checking of the real cds_lfq enqueue/dequeue/init/d
               'interleavings within R rounds of 2-3 threads, SC and x86-TSO; oracle: FIFO bad patterns, conservation, NULL-only-if-empty, no dummy leak, '
               'destroy iff empty, dummy pool: freed entries poisoned, double free / wild dereference reported.')
 LEVEL_NOTE = 'Trusted: clang-14 lowering, irseq translator, asm table, TSO model, CBMC heap model + MiniSat; bounds in evidence.'
+NA_REASON = 'check built but not yet validated on the unchanged tree within the time/memory caps; not claimed'
